@@ -7,8 +7,22 @@
 Require Import WS.Base.Bytes WS.Base.Tape WS.Spec.Frame WS.Spec.Conformance WS.Spec.Inflate.
 Require Import WS.Model.Bufio WS.Model.Reader WS.Cases.ReaderCase.
 
+(* "NextReader returns the same error up to the documented 1000-call threshold": the 1000th failed
+   call panics, so a panic preceded by fewer than 999 failed NextReader / ReadMessage results came too
+   early (failed ReadMessage calls are all counted, although those that failed while reading the body
+   do not count in the implementation: the clause errs on the quiet side) *)
+Fixpoint early_panic (n:N) (rs:list rout) : bool :=
+  match rs with
+  | [] => false
+  | RPanic :: _ => n <? 999
+  | RNext _ (Some _) :: r => early_panic (n + 1) r
+  | RMsg _ _ (Some _) :: r => early_panic (n + 1) r
+  | _ :: r => early_panic n r
+  end.
+
 Definition spec (k:rcase) (o:robs) : option (N * tape) :=
   let '(good, st) := scan_stream (server (k_cfg k)) (negotiated (k_cfg k)) (full_stream k) in
+  if early_panic 0 (o_res o) then Some (20, []) else
   match st with
   | SViolation _ | SBadLen => Some (97, [])
   | _ =>
